@@ -63,13 +63,20 @@ func (g *clientGen) bytesN(n int) []byte {
 
 // lenField: the header's length field is ignored by the audit parser; mostly right, sometimes not.
 func (g *clientGen) lenField(n int) uint32 {
-	switch g.rng.Intn(8) {
+	switch g.rng.Intn(10) {
 	case 0:
 		return 0
 	case 1:
 		return g.rng.Uint32()
 	case 2:
 		return uint32(n + 16 + 1 + g.rng.Intn(40))
+	case 3:
+		// a little less than the datagram (as if the datagram carried alignment padding or trailing bytes)
+		if v := n + 16 - 1 - g.rng.Intn(8); v >= 0 {
+			return uint32(v)
+		}
+	case 4:
+		return []uint32{15, 16, 17, uint32(n), uint32(n + 12), uint32(n + 15)}[g.rng.Intn(6)]
 	}
 	return uint32(n + 16)
 }
